@@ -86,7 +86,12 @@ let () =
     match split_ws (input_line ic) with
     | id :: src :: dst :: _ ->
       (try
-        if mode = "decode" then begin
+        if mode = "reserved" then begin
+          (* FitsModel.reserved (reservedFitsKeyword with the lists translated from the current source tree) and
+             FitsWf.aux_key_ok on one key: src = the key in hex ("-" = the empty key) *)
+          let k = if src = "-" then [] else unhex src in
+          Printf.printf "%s reserved=%d aux_key_ok=%d ok\n%!" id (if reserved k then 1 else 0) (if aux_key_ok k then 1 else 0)
+        end else if mode = "decode" then begin
           let b = bytes_of_file src in
           let oc = open_out dst in
           (match of_bytes b with
